@@ -252,14 +252,141 @@ theorem imageBody_refuses_target (m : Mgr) (hI : Inv m) (hV : VarsBij m.tbl)
 
 /-! ### `preimage` -/
 
-/-- the decorated body `_preimage_of(bdd, trans, target, rename, qvars, forall)`, reordering not enabled:
+/-! ### the test `fused` of `_preimage_of` -/
+
+theorem dedup_length_le {α} [BEq α] [LawfulBEq α] : ∀ l : List α, (dedup l).length ≤ l.length := by
+  intro l
+  induction l with
+  | nil => exact Nat.le_refl _
+  | cons a l ih =>
+    simp only [dedup]
+    split
+    · simp only [List.length_cons]; omega
+    · simp only [List.length_cons]; omega
+
+/-- `len(set(l)) == len(l)`: no repetition -/
+theorem nodup_of_dedup_length {α} [BEq α] [LawfulBEq α] :
+    ∀ l : List α, (dedup l).length = l.length → l.Nodup := by
+  intro l
+  induction l with
+  | nil => intro _; exact List.nodup_nil
+  | cons a l ih =>
+    intro h
+    simp only [dedup] at h
+    have hle := dedup_length_le l
+    split at h
+    · simp only [List.length_cons] at h; omega
+    · next hc =>
+      simp only [List.length_cons] at h
+      have hnd := ih (by omega)
+      have ha : a ∉ l := by
+        intro hm
+        apply hc
+        simpa using (mem_dedup.mpr hm)
+      exact List.nodup_cons.mpr ⟨ha, hnd⟩
+
+theorem nodup_map_inj {α β} (f : α → β) : ∀ l : List α, (l.map f).Nodup →
+    ∀ x, x ∈ l → ∀ y, y ∈ l → f x = f y → x = y := by
+  intro l
+  induction l with
+  | nil => intro _ x hx; cases hx
+  | cons a l ih =>
+    intro h x hx y hy he
+    rw [List.map_cons, List.nodup_cons] at h
+    rcases List.mem_cons.mp hx with rfl | hx'
+    · rcases List.mem_cons.mp hy with rfl | hy'
+      · rfl
+      · exact absurd (List.mem_map.mpr ⟨y, hy', he.symm⟩) h.1
+    · rcases List.mem_cons.mp hy with rfl | hy'
+      · exact absurd (List.mem_map.mpr ⟨x, hx', he⟩) h.1
+      · exact ih h.2 x hx' y hy' he
+
+theorem mem_intPairs {rn : List (Key × Key)} {p : Int × Int} (h : p ∈ intPairs rn) :
+    (Key.lvl p.1, Key.lvl p.2) ∈ rn := by
+  unfold intPairs at h
+  obtain ⟨x, hx, he⟩ := List.mem_filterMap.mp h
+  obtain ⟨k, v⟩ := x
+  cases k with
+  | name s => simp at he
+  | lvl a =>
+    cases v with
+    | name s => simp at he
+    | lvl b =>
+      simp only [Option.some.injEq] at he
+      subst he
+      exact hx
+
+/-- what the test `fused` says when it holds: every level pair adjacent, no two keys with the
+same value, no value in the support of the target -/
+theorem preimageFused_true {t : Tbl} {rn : List (Key × Key)} {target : Int}
+    (h : preimageFused t rn target = .ok true) :
+    (∀ p, p ∈ intPairs rn → (p.1 - p.2).natAbs = 1) ∧
+    (∀ p p', p ∈ intPairs rn → p' ∈ intPairs rn → p.2 = p'.2 → p.1 = p'.1) ∧
+    ∃ s, supportLevels t target = .ok s ∧
+      ∀ p, p ∈ intPairs rn → ∀ l : Nat, p.2 = (l : Int) → l ∉ s := by
+  unfold preimageFused at h
+  by_cases hn : renameNeighbors rn = true
+  · simp only [hn, Bool.not_true, Bool.false_eq_true, if_false] at h
+    by_cases hd : ((dedup (rn.map (·.2))).length == rn.length) = true
+    · simp only [hd, Bool.not_true, Bool.false_eq_true, if_false] at h
+      cases hs : supportLevels t target with
+      | error e => rw [hs] at h; cases h
+      | ok s =>
+        rw [hs] at h
+        simp only [Except.ok.injEq] at h
+        have hnd : (rn.map (·.2)).Nodup := by
+          apply nodup_of_dedup_length
+          have := beq_iff_eq.mp hd
+          rw [this, List.length_map]
+        refine ⟨?_, ?_, s, rfl, ?_⟩
+        · intro p hp
+          unfold renameNeighbors at hn
+          rw [List.all_eq_true] at hn
+          simpa using hn p hp
+        · intro p p' hp hp' he
+          have := nodup_map_inj (·.2) rn hnd _ (mem_intPairs hp) _ (mem_intPairs hp')
+            (by simp only [he])
+          exact Key.lvl.inj (congrArg Prod.fst this)
+        · intro p hp l hl hls
+          rw [List.all_eq_true] at h
+          have := h l hls
+          simp only [Bool.not_eq_true', List.contains_eq_mem, decide_eq_false_iff_not] at this
+          apply this
+          refine List.mem_map.mpr ⟨_, mem_intPairs hp, ?_⟩
+          simp only [hl]
+    · simp only [hd, Bool.not_false, if_true] at h
+      cases h
+  · simp only [hn, Bool.not_false, if_true] at h
+    cases h
+
+/-- when some level pair is not adjacent the test fails without looking at the target -/
+theorem preimageFused_not_neighbors {t : Tbl} {rn : List (Key × Key)} (target : Int)
+    (h : renameNeighbors rn = false) : preimageFused t rn target = .ok false := by
+  unfold preimageFused
+  simp only [h, Bool.not_false, if_true]
+
+/-- on a member of the manager the test returns -/
+theorem preimageFused_ok {t : Tbl} (hw : WFU t) (rn : List (Key × Key)) (target : Int)
+    (hv : t.Mem target) : ∃ b, preimageFused t rn target = .ok b := by
+  obtain ⟨s, hs, _⟩ := supportLevels_spec' hw target hv
+  unfold preimageFused
+  rw [hs]
+  split
+  · exact ⟨_, rfl⟩
+  split
+  · exact ⟨_, rfl⟩
+  · exact ⟨_, rfl⟩
+
+/-- the decorated body `_preimage_of(bdd, trans, target, rename, qvars, forall)`, reordering not enabled,
+the FUSED branch (the test `fused` holds: the recursion `_image` renames the target on the fly):
 when the pairs of the renaming are declared levels, adjacent (`|k - rename k| = 1`), no two keys
 share a target, and THE TARGET IS INDEPENDENT OF EVERY VALUE OF THE RENAMING, the result is
 `Q qvars. trans ∧ rename(target)`. -/
-theorem preimageBody_spec_partial (m : Mgr) (hI : Inv m) (hoff : m.lastLen = none)
+theorem preimageBody_spec_fused (m : Mgr) (hI : Inv m) (hoff : m.lastLen = none)
     (hV : VarsBij m.tbl) (trans target : Int) (hu : m.tbl.Mem trans) (hv : m.tbl.Mem target)
     (rn : List (Key × Key)) (qvars : List Key) (fa : Bool) (q : List Nat)
     (hq : mapToLevelE m.tbl qvars = .ok q)
+    (hf : preimageFused m.tbl (resolveRename m.tbl rn) target = .ok true)
     (hne : resolveRename m.tbl rn ≠ [] → 0 < m.nvars)
     (hov : renameOverlap (resolveRename m.tbl rn) = false)
     (hnb : badKeys (resolveRename m.tbl rn) = [])
@@ -295,14 +422,8 @@ theorem preimageBody_spec_partial (m : Mgr) (hI : Inv m) (hoff : m.lastLen = non
       (fun p hp j hj heq => hind p hp j heq (hj.dependsOn hI.wf)))
     (IMemo.empty _ _ _ _ _) (by omega)
   refine ⟨r, m', ?_, h1, h2, h5, h3, h6⟩
-  have hnbr : renameNeighbors (resolveRename m.tbl rn) = true := by
-    unfold renameNeighbors
-    rw [hpairs, List.all_eq_true]
-    intro p hp
-    simp only [beq_iff_eq]
-    exact hadj p hp
   unfold preimageBody
-  simp only [hq, assertValidRename_ok m hV _ hne hov, hnbr, if_true, hpairs, hnb, he]
+  simp only [hq, assertValidRename_ok m hV _ hne hov, hf, if_true, hpairs, hnb, he]
 
 /-! ### the renaming dictionary: keys and values given as names or as levels -/
 
@@ -867,35 +988,6 @@ theorem image_refuses_target (m : Mgr) (hI : Inv m) (hV : VarsBij m.tbl)
     (imageBody_refuses_target { m with ctx := true } (hI.setCtx true) hV trans source hu hv rn
       qvars fa q hq hov hnl hlv p hp l hl hlq hdep)
 
-/-- module-level `preimage(trans, target, rename, qvars, bdd, forall)`, reordering not enabled:
-when the pairs of the renaming are declared levels, adjacent (`|k - rename k| = 1`), no two keys
-share a target, and THE TARGET IS INDEPENDENT OF EVERY VALUE OF THE RENAMING, the result is
-`Q qvars. trans ∧ rename(target)`. -/
-theorem preimage_spec_partial (m : Mgr) (hI : Inv m) (hoff : m.lastLen = none)
-    (hV : VarsBij m.tbl) (trans target : Int) (hu : m.tbl.Mem trans) (hv : m.tbl.Mem target)
-    (rn : List (Key × Key)) (qvars : List Key) (fa : Bool) (q : List Nat)
-    (hq : mapToLevelE m.tbl qvars = .ok q)
-    (hne : resolveRename m.tbl rn ≠ [] → 0 < m.nvars)
-    (hov : renameOverlap (resolveRename m.tbl rn) = false)
-    (hnb : badKeys (resolveRename m.tbl rn) = [])
-    (hlv : ∀ p, p ∈ intPairs (resolveRename m.tbl rn) →
-      0 ≤ p.1 ∧ p.1 < (m.nvars : Int) ∧ 0 ≤ p.2 ∧ p.2 < (m.nvars : Int))
-    (hadj : ∀ p, p ∈ intPairs (resolveRename m.tbl rn) → (p.1 - p.2).natAbs = 1)
-    (hinj : ∀ p p', p ∈ intPairs (resolveRename m.tbl rn) →
-      p' ∈ intPairs (resolveRename m.tbl rn) → p.2 = p'.2 → p.1 = p'.1)
-    (hind : ∀ p, p ∈ intPairs (resolveRename m.tbl rn) → ∀ l : Nat, p.2 = (l : Int) →
-      ¬ dependsOn m.tbl target l) :
-    ∃ r m', preimage trans target rn qvars fa m = (.ok r, m') ∧ Inv m' ∧ Ext m.tbl m'.tbl ∧
-      m'.tbl.Mem r ∧ Frame m m' ∧
-      ∀ a, den m'.tbl r a = true ↔
-        qsem fa q (fun b => den m.tbl trans b && den m.tbl target
-          (fun j => b (renOf (intPairs (resolveRename m.tbl rn)) j))) a := by
-  obtain ⟨r, m1, he, h1, h2, h3, h4, h5⟩ := preimageBody_spec_partial { m with ctx := true }
-    (hI.setCtx true) hoff hV trans target hu hv rn qvars fa q hq hne hov hnb hlv hadj hinj hind
-  exact ⟨r, { m1 with ctx := m.ctx },
-    preimage_of_body_ok m hV trans target rn qvars fa q hq r m1 he,
-    h1.setCtx _, h2, h3, ⟨h4.vars, h4.l2v, h4.lastLen, rfl, h4.sched, h4.roots⟩, h5⟩
-
 /-- `image` with the renaming and the quantified variables given BY NAME (declared names,
 pairwise distinct keys, no key is a value) -/
 theorem image_spec_names (m : Mgr) (hI : Inv m) (hoff : m.lastLen = none) (hV : VarsBij m.tbl)
@@ -965,100 +1057,6 @@ theorem image_spec_names (m : Mgr) (hI : Inv m) (hoff : m.lastLen = none) (hV : 
       rcases htg p hp with h | h
       · exact Or.inl (List.mem_map.mpr ⟨p.2, h, rfl⟩)
       · exact Or.inr h)
-  rw [hres', hip'] at this
-  exact this
-
-/-- `preimage` with the renaming and the quantified variables given BY NAME (declared names,
-pairwise distinct keys, no key is a value, partners adjacent, no two keys with the same value),
-the target independent of every value of the renaming -/
-theorem preimage_spec_partial_names (m : Mgr) (hI : Inv m) (hoff : m.lastLen = none)
-    (hV : VarsBij m.tbl) (trans target : Int) (hu : m.tbl.Mem trans) (hv : m.tbl.Mem target)
-    (l : List (String × String)) (qs : List String) (fa : Bool)
-    (hkeys : (l.map (·.1)).Nodup)
-    (hd : ∀ p, p ∈ l → m.tbl.vars.contains p.1 = true ∧ m.tbl.vars.contains p.2 = true)
-    (hqd : ∀ s, s ∈ qs → m.tbl.vars.contains s = true)
-    (hov : ∀ p p', p ∈ l → p' ∈ l → p.2 ≠ p'.1)
-    (hadj : ∀ p, p ∈ l → ((lvlOf m.tbl p.1 : Int) - (lvlOf m.tbl p.2 : Int)).natAbs = 1)
-    (hinj : ∀ p p', p ∈ l → p' ∈ l → p.2 = p'.2 → p.1 = p'.1)
-    (hind : ∀ p, p ∈ l → ¬ dependsOn m.tbl target (lvlOf m.tbl p.2)) :
-    ∃ r m', preimage trans target (l.map fun p => (Key.name p.1, Key.name p.2))
-        (qs.map Key.name) fa m = (.ok r, m') ∧ Inv m' ∧ Ext m.tbl m'.tbl ∧
-      m'.tbl.Mem r ∧ Frame m m' ∧
-      ∀ a, den m'.tbl r a = true ↔
-        qsem fa (qs.map (lvlOf m.tbl)) (fun b => den m.tbl trans b && den m.tbl target
-          (fun j => b (renOf
-            (l.map fun p => ((lvlOf m.tbl p.1 : Int), (lvlOf m.tbl p.2 : Int))) j))) a := by
-  obtain ⟨hres, hip⟩ := intPairs_resolveRename_names m.tbl hV l hkeys hd
-  generalize hlp : (l.map fun p => ((lvlOf m.tbl p.1 : Int), (lvlOf m.tbl p.2 : Int))) = lp at hip
-  have hres' : resolveRename m.tbl (l.map fun p => (Key.name p.1, Key.name p.2)) =
-      lp.map fun p => (Key.lvl p.1, Key.lvl p.2) := by
-    rw [hres, ← hlp, List.map_map]; rfl
-  have hip' : intPairs (lp.map fun p => (Key.lvl p.1, Key.lvl p.2)) = lp := intPairs_map_lvl lp
-  have hlvl : ∀ s, m.tbl.vars.contains s = true → lvlOf m.tbl s < m.nvars := by
-    intro s hs
-    obtain ⟨i, hi⟩ := (vars_contains_iff _ _).mp hs
-    rw [lvlOf_eq hi]; exact hV.lt _ _ hi
-  have hinjv : ∀ s s', m.tbl.vars.contains s = true → m.tbl.vars.contains s' = true →
-      lvlOf m.tbl s = lvlOf m.tbl s' → s = s' := by
-    intro s s' hs hs' he
-    obtain ⟨i, hi⟩ := (vars_contains_iff _ _).mp hs
-    obtain ⟨j, hj⟩ := (vars_contains_iff _ _).mp hs'
-    rw [lvlOf_eq hi, lvlOf_eq hj] at he
-    subst he
-    exact hV.inj hi hj
-  have hmem : ∀ x, x ∈ lp → ∃ p, p ∈ l ∧ x = ((lvlOf m.tbl p.1 : Int), (lvlOf m.tbl p.2 : Int)) := by
-    intro x hx
-    rw [← hlp] at hx
-    obtain ⟨p, hp, rfl⟩ := List.mem_map.mp hx
-    exact ⟨p, hp, rfl⟩
-  have := preimage_spec_partial m hI hoff hV trans target hu hv
-    (l.map fun p => (Key.name p.1, Key.name p.2))
-    (qs.map Key.name) fa (qs.map (lvlOf m.tbl)) (mapToLevelE_names m.tbl qs hqd)
-    (by
-      rw [hres']
-      intro hne
-      cases hl : l with
-      | nil => rw [← hlp, hl] at hne; exact absurd rfl hne
-      | cons p _ =>
-        have := hlvl _ (hd p (by rw [hl]; exact List.mem_cons_self)).1
-        omega)
-    (by
-      rw [hres', renameOverlap_lvls]
-      intro x x' hx hx' he
-      obtain ⟨p, hp, rfl⟩ := hmem x hx
-      obtain ⟨p', hp', rfl⟩ := hmem x' hx'
-      simp only at he
-      exact hov p p' hp hp' (hinjv _ _ (hd p hp).2 (hd p' hp').1 (by omega)))
-    (by rw [hres']; exact badKeys_map_lvl lp)
-    (by
-      rw [hres', hip']
-      intro x hx
-      obtain ⟨p, hp, rfl⟩ := hmem x hx
-      have h1 := hlvl _ (hd p hp).1
-      have h2 := hlvl _ (hd p hp).2
-      simp only
-      omega)
-    (by
-      rw [hres', hip']
-      intro x hx
-      obtain ⟨p, hp, rfl⟩ := hmem x hx
-      exact hadj p hp)
-    (by
-      rw [hres', hip']
-      intro x x' hx hx' he
-      obtain ⟨p, hp, rfl⟩ := hmem x hx
-      obtain ⟨p', hp', rfl⟩ := hmem x' hx'
-      simp only at he
-      have h2 := hinjv _ _ (hd p hp).2 (hd p' hp').2 (by omega)
-      rw [hinj p p' hp hp' h2])
-    (by
-      rw [hres', hip']
-      intro x hx lv hlv
-      obtain ⟨p, hp, rfl⟩ := hmem x hx
-      simp only at hlv
-      have : lvlOf m.tbl p.2 = lv := by omega
-      subst this
-      exact hind p hp)
   rw [hres', hip'] at this
   exact this
 
